@@ -6,11 +6,11 @@ export GOFLAGS=-mod=mod GOPROXY=off GOSUMDB=off GOTOOLCHAIN=local
 cd $W || exit 2
 git checkout -q -- . ; for d in $W/demo_*; do [ -d "$d" ] && mv "$d" /tmp/old-$(basename $d)-$$ ; done
 log=/tmp/confirm-$ID-$V.log; : > $log
-sh $O/demo/run_demo.sh >> $log 2>&1; clean_rc=$?
+bash $O/demo/run_demo.sh >> $log 2>&1; clean_rc=$?
 git apply $O/patch.diff || { echo "$ID-$V: patch does not apply"; exit 3; }
 go build ./... >> $log 2>&1; build_rc=$?
 go test -vet=off -count=1 ./... >> $log 2>&1; test_rc=$?
-sh $O/demo/run_demo.sh >> $log 2>&1; mut_rc=$?
+bash $O/demo/run_demo.sh >> $log 2>&1; mut_rc=$?
 git checkout -q -- .
 echo "$ID-$V: demo_clean=$clean_rc build=$build_rc tests=$test_rc demo_mutated=$mut_rc"
 if [ $clean_rc -eq 0 ] && [ $build_rc -eq 0 ] && [ $test_rc -eq 0 ] && [ $mut_rc -ne 0 ]; then
